@@ -431,6 +431,8 @@ func configure(g *gen) {
 		{Callee: "$.data[]=", Effect: "{ $ with data := GoRt.dataPut $.data %1 %2 }"},
 		{Callee: "$.data[]", Values: []string{"(GoRt.dataGet $.data %1).1", "(GoRt.dataGet $.data %1).2"}, Ts: []T{{"opaque", "GoRt.DV"}, tBool}},
 	}
+	add(FnSpec{Recv: "Context", Func: "AddError", Lean: "Ctx.AddError", Types: map[string]T{"error": {"opaque", "Option Nat"}}})
+	add(FnSpec{Recv: "Context", Func: "FirstError", Lean: "Ctx.FirstError", Types: map[string]T{"error": {"opaque", "Option Nat"}}})
 	for _, n := range []string{"Set", "Get", "SafeGet", "Data"} {
 		add(FnSpec{Recv: "Context", Func: n, Lean: "Ctx." + n, Types: dataT, Exts: dataExts})
 	}
